@@ -398,6 +398,7 @@ class Engine:
         self.facts = facts
         self.maxdepth = maxdepth
         self.inline_small = inline_small
+        self._inlining_names = set()
         self._idx = {}
         self._memo = {}
         self._ret = {}
@@ -699,6 +700,11 @@ class Engine:
 
     def mk_call(self, decl, res, local, args, site, node=None):
         name = res or decl
+        if decl in ('std::option::Option::<T>::unwrap_or', 'std::result::Result::<T, E>::unwrap_or') and len(args) == 2:
+            # the payload when present (wrappers are transparent), the default otherwise
+            return mk_phi([args[0], args[1]])
+        if decl in ('std::option::Option::<T>::unwrap_or_else', 'std::result::Result::<T, E>::unwrap_or_else') and len(args) == 2:
+            return mk_phi([args[0], self.apply(args[1], ())])
         if decl in TRANSPARENT and args:
             return args[0]
         if decl == 'std::convert::From::from' and 'CtOption' in res:
@@ -799,6 +805,42 @@ class Engine:
                 return self.inline(fn, args, ())
             return T('call', fn, tuple(args), ())
         return T('apply', f, tuple(args))
+
+    def expand(self, t, depth=3, stop=()):
+        """replace calls of crate-local functions by the success value of their inlined return term (helpers are transparent)"""
+        memo = {}
+
+        def go(x, d):
+            if not is_term(x):
+                if isinstance(x, tuple):
+                    return tuple(go(y, d) for y in x)
+                return x
+            k = (x.id, d)
+            if k in memo:
+                return memo[k]
+            tag = x.tag
+            if tag in ('const', 'item', 'fnitem', 'static', 'opaque', 'scalar', 'param', 'upvar', 'lv'):
+                r = x
+            elif tag == 'call':
+                args = go(x[2], d)
+                r = None
+                if d > 0 and x[1] in self.facts.fn and x[1] not in stop and x[1] not in self._inlining_names and not self.facts.fn[x[1]].impl_trait:
+                    self._inlining_names.add(x[1])
+                    try:
+                        inl = self.inline(x[1], args, x[3])
+                        sv = success_value(inl[1] if inl.tag == 'mut' and not inl[2] else inl)
+                        r = go(sv if sv is not None else inl, d - 1)
+                    finally:
+                        self._inlining_names.discard(x[1])
+                if r is None:
+                    r = T('call', x[1], args, x[3])
+            elif tag == 'ev':
+                r = T('ev', x[1], x[2], go(x[3], d), x[4])
+            else:
+                r = renorm(self, tag, tuple(go(y, d) for y in x.args))
+            memo[k] = r
+            return r
+        return go(t, depth)
 
     def lv_defs(self, lv):
         """terms of every whole definition (initial and in-loop) of a loop-carried variable atom, plus its events"""
@@ -1004,6 +1046,9 @@ def project_field(t, name, i):
             return mk_phi([base] + stored)
     if tag == 'via':
         return T('via', t[1], project_field(t[2], name, i))
+    if tag == 'adapt' and t[1] == 'split_first' and i in (0, 1):
+        # (first, rest): the same data as first() and iter().skip(1)
+        return mk_elemat(t[2], T('const', 'first')) if i == 0 else T('adapt', 'skip', t[2], T('const', 1))
     if tag == 'call' and CURRENT is not None and t[1] in CURRENT.facts.fn and (t.id, name) not in _PROJ_BUSY:
         # field of the value returned by a crate-local constructor: look through the constructor
         _PROJ_BUSY.add((t.id, name))
